@@ -600,7 +600,7 @@ func leafStream(c *ctx) {
 		}
 	}
 	for _, bc := range []int{0, 8, 64, 1024} {
-		for _, sl := range []int64{0, -1, -5, 1, 8, 9, 64, 65, 1024, 1025, 1 << 20, 64<<20 - 1, 64 << 20, 64<<20 + 1, 1 << 40} {
+		for _, sl := range []int64{0, -1, -5, 1, 8, 9, 64, 65, 1024, 1025, 1 << 20, 64<<20 - 1, 64 << 20, 64<<20 + 1} { // larger claims only in the workers: an uncapped make would kill this process
 			n, isNew := codec.VerifC02UsableByteSliceLen(bc, int(sl))
 			s, v := sg(sl)
 			c.nmod++
